@@ -46,6 +46,15 @@ fn formula_values(m: &Model, wb: &Wb) -> Vec<String> {
     out
 }
 
+/// both canonical values are numbers and differ by a few units in the last place at most
+fn close_numbers(x: &str, y: &str) -> bool {
+    let bits = |s: &str| s.strip_prefix('n').and_then(|h| u64::from_str_radix(h, 16).ok()).map(f64::from_bits);
+    match (bits(x), bits(y)) {
+        (Some(a), Some(b)) => a.is_finite() && b.is_finite() && (a - b).abs() <= 1e-13 * a.abs().max(b.abs()),
+        _ => false,
+    }
+}
+
 fn eval_order(req: &str) -> ImplOut {
     let f: Vec<&str> = req.split(' ').collect();
     let (k, seed) = match f.get(2).and_then(|x| x.split_once('.')) {
@@ -99,7 +108,16 @@ fn eval_order(req: &str) -> ImplOut {
             out = out.fail("c07:evaluate-twice-differs", &format!("build {b} ({}): {} then {}", mode_name(b), v1.join(";"), v2.join(";")));
         }
         if v1 != baseline {
-            let sig = format!("c07:order-dependent:{}", mode_name(b));
+            // after a reload the formulas are re-parsed from their stored text, in which the engine's
+            // printer drops the parentheses of `a+(b-c)`: the value can then differ in the last bits
+            let ulp_only = reload
+                && v1.len() == baseline.len()
+                && v1.iter().zip(baseline.iter()).all(|(x, y)| x == y || close_numbers(x, y));
+            let sig = if ulp_only {
+                format!("c07:order-dependent:{}:float-reassociation-after-reload", mode_name(b))
+            } else {
+                format!("c07:order-dependent:{}", mode_name(b))
+            };
             out = out.fail(&sig, &format!("build {b} order {:?}: {} vs natural-order build {}", idx, v1.join(";"), baseline.join(";")));
         }
     }
